@@ -320,7 +320,7 @@ fn sub_entry_points(input: &[u8], st: &mut Stats) -> R {
     let via = |ld: dr::Loader, by_words: bool| -> Result<Result<dr::Module, ParseState>, Fail> {
         no_panic("parse with a caller-owned Loader", || {
             let mut ld = ld;
-            let r = if by_words { rspirv::binary::parse_words(&words, &mut ld) } else { rspirv::binary::parse_bytes(&bytes, &mut ld) };
+            let r = if by_words { rspirv::binary::parse_words(&words, &mut ld) } else { rspirv::binary::parse_bytes(crate::rs::Shifted::new(&bytes).bytes(), &mut ld) };
             r.map(|_| ld.module())
         })
     };
@@ -539,6 +539,72 @@ fn sub_ext_inst_contexts(input: &[u8], st: &mut Stats) -> R {
     check_words(&w, st, &|| format!("Op{} on an import of {:?}, {}", if opi == 0 { "ExtInst" } else { "ExtInstWithForwardRefsKHR" }, EXT_SETS[seti], where_))
 }
 
+/// `huge-modules`: one structural element repeated 65 530 - 1 048 581 times (a third of the cases
+/// around 2^20, a third around 2^18) - instructions in one block, blocks in one function, functions,
+/// module-level debug names, type declarations - properly closed, or with the last OpFunctionEnd
+/// missing, or with a stray block instruction after the last function. The bracketing rule has no
+/// size in it.
+fn sub_huge(input: &[u8], st: &mut Stats) -> R {
+    let mut cs = Cs::new(input);
+    let n = match cs.below(3) {
+        0 => 1_048_570 + cs.below(12),
+        1 => 262_138 + cs.below(12),
+        _ => cs.big_count(),
+    };
+    let pat = cs.below(5);
+    let ending = cs.below(4);
+    let mut w = header_words((1, 5), 50);
+    w.extend([0x0002_0011, 1]); // OpCapability Shader
+    w.extend([0x0003_000e, 0, 1]); // OpMemoryModel Logical GLSL450
+    match pat {
+        3 => {
+            for k in 0..n as u32 {
+                w.extend([0x0003_0005, 10 + (k & 7), 0x0000_0061]); // OpName %x "a"
+            }
+        }
+        4 => {
+            for k in 0..n as u32 {
+                w.extend([0x0004_0015, 100 + k, 32, k & 1]); // OpTypeInt 32
+            }
+        }
+        _ => {}
+    }
+    w.extend([0x0002_0013, 2]); // %2 = OpTypeVoid
+    w.extend([0x0003_0021, 3, 2]); // %3 = OpTypeFunction %2
+    match pat {
+        0 => {
+            w.extend([0x0005_0036, 2, 4, 0, 3, 0x0002_00f8, 5]);
+            w.extend(std::iter::repeat(0x0001_0000u32).take(n)); // OpNop
+            w.extend([0x0001_00fd]);
+        }
+        1 => {
+            w.extend([0x0005_0036, 2, 4, 0, 3]);
+            for k in 0..n as u32 {
+                w.extend([0x0002_00f8, 1000 + k, 0x0001_00fd]);
+            }
+        }
+        2 => {
+            for k in 0..(n as u32 - 1) {
+                w.extend([0x0005_0036, 2, 2_000_000 + k, 0, 3, 0x0001_0038]);
+            }
+            w.extend([0x0005_0036, 2, 4, 0, 3]);
+        }
+        _ => {
+            w.extend([0x0005_0036, 2, 4, 0, 3, 0x0002_00f8, 5, 0x0001_00fd]);
+        }
+    }
+    match ending {
+        0 => {} // OpFunctionEnd missing
+        1 => {
+            w.extend([0x0001_0038, 0x0001_0000]); // closed, then a stray OpNop
+        }
+        _ => w.extend([0x0001_0038]),
+    }
+    st.count(&format!("huge_modules_pattern_{}", pat));
+    st.nontrivial(hash_str(&format!("{}#{}#{}", pat, n, ending)));
+    check_words(&w, st, &|| format!("{} x {} ({}), ending: {}", n, ["OpNop in one block", "label + OpReturn in one function", "OpFunction + OpFunctionEnd", "OpName at module level", "OpTypeInt at module level"][pat], pat, ["OpFunctionEnd missing", "closed, then a stray OpNop", "closed", "closed"][ending]))
+}
+
 pub const SUBS: &[Sub] = &[
     Sub { name: "opcode-contexts", f: sub_sweep },
     Sub { name: "alphabet", f: sub_alphabet },
@@ -546,6 +612,7 @@ pub const SUBS: &[Sub] = &[
     Sub { name: "edge-ids", f: sub_edge_ids },
     Sub { name: "entry-points", f: sub_entry_points },
     Sub { name: "ext-inst-contexts", f: sub_ext_inst_contexts },
+    Sub { name: "huge-modules", f: sub_huge },
 ];
 
 pub fn run(ctx: &Ctx) {
@@ -557,6 +624,7 @@ pub fn run(ctx: &Ctx) {
     drive_random(ctx, &SUBS[3], ctx.n(8_000, 4_000_000), 4000);
     drive_random(ctx, &SUBS[4], ctx.n(10_000, 5_000_000), 1600);
     drive_enum(ctx, &SUBS[5], (EXT_SETS.len() * 2 * 6) as u64);
+    drive_random_costly(ctx, &SUBS[6], ctx.n(2, 400), 64);
     if !ctx.quick() && !ctx.failed() {
         crate::fuzzing::drive_fuzz(ctx, "modules", 200000);
     }
